@@ -47,6 +47,27 @@ def enum_from_ast(rel, name):
     raise TranslationError("enum %s not found in %s" % (name, rel))
 
 
+def anon_enum_in_namespace(rel, ns):
+    """enumerators of the (anonymous) enum declared inside namespace `ns`"""
+    for d in dump(rel, ns):
+        stack = [d]
+        while stack:
+            n = stack.pop()
+            if n.get("kind") == "EnumDecl" and n.get("inner"):
+                vals, v = [], 0
+                for c in n["inner"]:
+                    if c["kind"] == "EnumConstantDecl":
+                        if c.get("inner"):
+                            e = c["inner"][0]
+                            while "value" not in e and e.get("inner"):
+                                e = e["inner"][0]
+                            v = int(e["value"])
+                        vals.append((c["name"], v)); v += 1
+                return vals
+            stack.extend(x for x in n.get("inner", []) if isinstance(x, dict))
+    raise TranslationError("no enum found in namespace %s of %s" % (ns, rel))
+
+
 def find_functions(rel, filters, want, scope=None):
     fns = {}
     for flt in filters:
@@ -110,6 +131,12 @@ class Tr:
             return "(EBin %s %s %s)" % (ops[e["opcode"]], s.expr(e["inner"][0]), s.expr(e["inner"][1]))
         if k == "UnaryOperator" and e["opcode"] == "!":
             return "(ENot %s)" % s.expr(e["inner"][0])
+        if k == "CXXMemberCallExpr":
+            me = e["inner"][0]
+            if me.get("kind") == "MemberExpr" and me.get("name") == "kind" and len(e["inner"]) == 1:
+                obj = s.unwrap(me["inner"][0])
+                if obj.get("kind") == "DeclRefExpr" and obj["referencedDecl"]["id"] in s.vars:
+                    return "(EVar %d)" % s.vars[obj["referencedDecl"]["id"]]
         if k in ("CallExpr", "CXXMemberCallExpr", "CXXOperatorCallExpr"):
             callee = e["inner"][0]
             while callee["kind"] in ("ImplicitCastExpr",):
